@@ -179,6 +179,9 @@ func Corpus(e *Env) []Case {
 	add("getdata-wrap40", "getdata", "", cat(vintForm(wrapCount(36, 40), 9), make([]byte, 40)))
 	add("getdata-1", "getdata", "", cat(vint(1), []byte{2, 0, 0, 0x40}, e.Hashes[2].Hash[:]))
 	add("getdata-cmpct", "getdata", "", cat(vint(1), []byte{4, 0, 0, 0}, e.Hashes[104].Hash[:]))
+	// SendRawMsg(…, encrypt=true) with no AES context left the function with c.Mutex held (found by the
+	// lock-trace scan; the state is not reachable through the handshake, hence set directly)
+	add("W:sendrawmsg-encrypt-no-key", "getdata", "ackgot", cat(vint(1), []byte{4, 0, 0, 0}, e.Hashes[104].Hash[:]))
 	add("getdata-empty", "getdata", "", nil)
 	add("getdata-mismatch", "getdata", "", cat(vint(3), make([]byte, 36)))
 
